@@ -40,6 +40,28 @@ def c19_extra(prop, tier, seed, broken, failing, ev_cov, notes):
     ev_cov["evaluations_override"] = 2 * total
 
 
+def c08_extra(prop, tier, seed, broken, failing, ev_cov, notes):
+    """C08's model treats NASEncrypt / NASMacCalculate as functions of their arguments; `security_stateless` re-decides on the
+    regenerated facts that the security packages keep no package-level state written at call time. When an obligation is
+    broken and the sequential oracles found nothing, look for a failing schedule: the cipher/MAC ops from 64 goroutines under
+    the race detector, results compared with the sequential run."""
+    import core, time
+    if not broken or failing:
+        return
+    ok, out = core.build_race_harness()
+    if not ok:
+        return
+    t = time.time()
+    okc, summary, detail, n, ops = core.run_conc(seed, 1500, domains=["security", "secapi"])
+    core.log(f"conc (security ops) seed {seed}: {summary or 'no summary'} ({time.time()-t:.0f}s)")
+    notes.append(f"conc security seed {seed}: {summary}")
+    if not okc:
+        what = "data race reported by the Go race detector" if "DATA RACE" in detail else "concurrent result differs from the sequential run"
+        failing.append({"op": f"conc seed={seed} per_domain=1500 goroutines=64 domains=security,secapi", "result": what + ": " + detail[:1500], "oracle": "conc", "seed": seed})
+    if os.path.exists(ops) and not os.environ.get("VERIF_KEEP"):
+        os.remove(ops)
+
+
 import os
 
 CODEC_MODS = ["NasVerif.Props.Codec"]
@@ -102,7 +124,7 @@ PROPS = {
         rule="as C06; MAC messages canonically packed (pad bits zero), every bit length incl. non-multiples of 8/32/64",
     ),
     "C08": dict(
-        level="proof", modules=["NasVerif.Props.C08"], parts=["Crypto"],
+        level="proof", modules=["NasVerif.Props.C08"], parts=["Crypto", "Globals"], extra=c08_extra,
         streams=[("secapi", 2000, 12000), ("security", 1000, 4000)], oracle="C08",
         trusted_base=TB_COMMON + ["Model/Security.lean NASEncrypt/NASMacCalculate mirror the Go guard sequence and switch; tied by the correspondence run over the (algorithm, bearer, direction, payload) grid"],
         rule="grid of algorithm ids (all 256) x bearers x directions x payloads (nil, empty, 1 octet, random) + every payload length 0..70 per algorithm + random lengths to 1500; oracle evaluates involution, prefix stability (every prefix), plaintext independence, validation, NULL algorithms, MAC length on the real code",
